@@ -28,7 +28,17 @@ REMOTE_ROOTS = {}     # location name -> real root directory of the shell-based 
 
 
 def val(v):
-    return sum(v) if isinstance(v, list) else v
+    return sum(val(x) for x in v) if isinstance(v, list) else v
+
+
+def elem(v):
+    """A list element in the specification's tagged form."""
+    return {"k": "lst", "val": [elem(x) for x in v]} if isinstance(v, list) else {"k": "tok", "val": v}
+
+
+def topval(v):
+    """The `val` field of a token: an integer, or a sequence of elements."""
+    return [elem(x) for x in v] if isinstance(v, list) else v
 
 
 def tagstr(t):
@@ -122,10 +132,11 @@ def classes():
 def make_token(t):
     from streamflow.core.workflow import Token
     from streamflow.workflow.token import ListToken
-    v = t["val"]
-    if isinstance(v, list):
-        return ListToken([Token(x, tag=tagstr(t["tag"])) for x in v], tag=tagstr(t["tag"]))
-    return Token(v, tag=tagstr(t["tag"]))
+    def mk(v, tag):
+        if isinstance(v, list):
+            return ListToken([mk(x, tag) for x in v], tag=tag)
+        return Token(v, tag=tag)
+    return mk(t["val"], tagstr(t["tag"]))
 
 
 async def build_real(ctx, desc, workdir):
